@@ -18,7 +18,7 @@ OPS = ['<', '=', '>', '<=', '>=', '<>']
 
 numbers = st.one_of(st.integers(-5, 5), st.integers(-10 ** 9, 10 ** 9), st.sampled_from([0, 1, -1, 0.0, -0.0, 0.5, -0.5, 2.5, 1e-9, 43789, 43789.25, 61, 2]),
                     st.floats(-1e6, 1e6, allow_nan=False), st.integers(-400, 400).map(lambda k: k / 8.0),
-                    st.sampled_from([{'$': 'f', 'v': 'inf'}, {'$': 'f', 'v': '-inf'}, 1e308, -1e308, 5e-324]),        # the far ends of the float domain, from the host
+                    st.sampled_from([{'$': 'f', 'v': 'inf'}, {'$': 'f', 'v': '-inf'}, 1e308, -1e308, 5e-324, {'$': 'pow', 'v': [10, 400]}, {'$': 'pow', 'v': [-7, 401]}, {'$': 'pow', 'v': [2, 1024]}]),        # the far ends of the float domain, from the host
                     # host numbers whose class derives from int / float (an IntEnum member, a numpy-style scalar)
                     st.one_of(st.integers(-9, 9).map(lambda k: {'$': 'sub', 'v': ['int', k]}), st.integers(-40, 40).map(lambda k: {'$': 'sub', 'v': ['float', k / 4.0]})))
 
@@ -35,7 +35,7 @@ dates = st.tuples(st.one_of(st.integers(rd.MAR1_ORD, rd.LAST_ORD), st.integers(r
 early_dates = st.sampled_from([{'$': 'dt', 'v': '9999-12-31T12:00:00'}, {'$': 'dt', 'v': '9999-12-31T23:59:59.999000'}, {'$': 'dt', 'v': '9999-12-31T00:00:00'}, {'$': 'dt', 'v': '1900-01-01T00:00:00'}, {'$': 'dt', 'v': '1900-01-02T00:00:00'}, {'$': 'dt', 'v': '1900-02-28T12:00:00'}, {'$': 'dt', 'v': '1900-01-01T06:00:00'}])
 texts = st.one_of(st.sampled_from(['\U0001f600', '\uff21', '\ue000', '\U00020bb7', 'a\U0001f600', 'a\uffff', '\ufffd', '\U0010ffff']), st.sampled_from(['e\u0301', '\u00e9', 'A\u030a', '\u212b', '\u00c5', 'e\u0301x', '\ufb01', 'fi', '\u1e9b\u0323', 'a\u0308', '\u00e4']),
                   st.sampled_from(['', '2', '-1', '10', '9', 'a', 'A', 'b', 'B', 'ab', 'aB', 'Ab', 'TRUE', 'FALSE', ' ', '!', 'z', 'é', 'É', '0']),
-                  st.sampled_from(['2019-11-19', '2019-11-20', '14/10/1900', '12:30', 'may', '20 Nov 2019', '1900-03-01', '43789', '1e3', '\x00', 'a\x00', 'a\x00b', '\x00\x00']),      # text that spells a date or a time is text all the same
+                  st.sampled_from(['2019-11-19', '2019-11-20', '14/10/1900', '12:30', 'may', '20 Nov 2019', '1900-03-01', '43789', '1e3', '\x00', 'a\x00', 'a\x00b', '\x00\x00', '#N/A', '#DIV/0!', '#VALUE!', '#n/a']),      # text that spells a date or a time is text all the same
                   st.text(st.sampled_from('abAB12 -!é'), max_size=4), st.text(max_size=5))
 scalar = st.one_of(numbers, numbers, dates, dates, dates, early_dates, texts, texts, texts, st.booleans(), st.none())
 
@@ -91,7 +91,7 @@ def cls(spec):
     if isinstance(spec, dict):
         if spec.get('$') == 'sub':
             return 'text' if spec['v'][0] == 'str' else 'number'
-        if spec.get('$') == 'f':
+        if spec.get('$') in ('f', 'pow'):
             return 'number'
         return 'date'
     if isinstance(spec, str):
